@@ -41,8 +41,8 @@ TRUSTED = [
     "(verif_api/trace.rs, mtrace.rs) delay threads pseudo-randomly",
     "gcc/as/ar to build the inputs; sha256",
 ]
-RULE = ("programs of 8 shapes (static C with libc.a, freestanding asm with many objects/archives, shared library with many exports + version script + "
-        "versioned duplicate names, string-merge heavy, TLS, IFUNC, --gc-sections heavy, SysV-hash executable exporting on request of shared objects; thorough adds a SysV-hash shared library) x configurations varying only knobs that "
+RULE = ("programs of 9 shapes (static C with libc.a, freestanding asm with many objects/archives, shared library with many exports + version script + "
+        "versioned duplicate names, string-merge heavy, TLS, IFUNC, --gc-sections heavy, SysV-hash executable exporting on request of shared objects, input sections of >= 1,000,000 bytes (parallel chunked copy; sizes coprime to the thread counts, exactly at and just below the threshold, one with a relocation, one from an archive; their output bytes are also compared with the input bytes); thorough adds a SysV-hash shared library) x configurations varying only knobs that "
         "must not matter (--threads=1..16, WILD_FILES_PER_GROUP, --wild-experiments, schedule perturbation seeds, prior output file state, --update-in-place); "
         "a case = one (program, configuration) link compared byte-for-byte (sha256) with the program's reference link; all cases non-trivial")
 ASSUMPTIONS = ["--build-id=uuid is random by design and excluded", "inputs, argument order and environment other than the listed knobs are fixed"]
@@ -212,9 +212,60 @@ def prog_exe_sysv_requests(d, r, scale):
     return ["--hash-style=sysv", "--no-gc-sections", st] + objs + sos
 
 
+def prog_big_sections(d, r, scale):
+    """Input sections at and above 1,000,000 bytes (file_writer.rs copy_section_data copies those in parallel chunks of len / threads bytes): sizes
+    coprime to every small thread count, exactly the threshold, and just below it; non-periodic pseudo-random bytes that are non-zero up to the very end
+    of each section; one of the big sections carries a relocation and one comes out of an archive. Returns (arguments, verifier): the verifier compares
+    the bytes of every big symbol in an output with the input bytes."""
+    def odd_size(lo, hi):
+        while True:
+            n = r.range(lo, hi)
+            if all(n % q for q in (2, 3, 5, 7, 11, 13)):
+                return n
+    plan = [("big_ro", ".rodata", "a", 1_000_003, False),
+            ("big_rw", ".data", "aw", odd_size(1_000_000, 1_000_000 + 300_000 * scale), True),
+            ("big_edge", ".rodata.edge", "a", 1_000_000, False),
+            ("big_below", ".data.below", "aw", 999_999, False),
+            ("big_arch", ".rodata.arch", "a", odd_size(1_000_000, 1_000_000 + 1_000_000 * scale), False)]
+    objs, expect = [], {}
+    for k, (sym, sec, fl, n, with_reloc) in enumerate(plan):
+        body = bytearray(hashlib.shake_128(r.next().to_bytes(8, "little")).digest(n))
+        for i in range(max(0, n - 64), n):     # the tail is what a short copy loses: keep every byte of it non-zero
+            body[i] = body[i] or (i % 255) + 1
+        binp = os.path.join(d, f"tab{k}.bin")
+        with open(binp, "wb") as f:
+            f.write(body)
+        skip = 8 if with_reloc else 0
+        expect[sym] = (n, skip, bytes(body[skip:]))
+        src = (f'    .section {sec},"{fl}",@progbits\n    .globl {sym}\n    .type {sym},@object\n{sym}:\n' +
+               (f"    .quad fn_0\n    .incbin \"{binp}\", 8\n" if with_reloc else f'    .incbin "{binp}"\n') + f"    .size {sym}, . - {sym}\n")
+        objs.append(lu.asm_obj(d, f"big{k}", src))
+    arch = lu.archive(os.path.join(d, "libbig.a"), [objs.pop()])
+    line = build_asm_program(d, r, 6 * scale, 1)
+    use = lu.asm_obj(d, "use", "    .text\n    .globl use_big\nuse_big:\n" + "".join(f"    lea {p[0]}(%rip), %rax\n" for p in plan) + "    ret\n"
+                     "    .section .init_array,\"aw\"\n    .quad use_big\n")
+
+    def verify(out_path):
+        e = Elf(out_path)
+        syms = {y.name: y for y in e.symtab()}
+        bad = []
+        for sym, (n, skip, want) in expect.items():
+            y = syms.get(sym)
+            if y is None or y.size != n:
+                bad.append((sym, n, -1, f"symbol missing or st_size {getattr(y, 'size', None)} != {n}"))
+                continue
+            got = e.read(y.value + skip, n - skip)
+            if got != want:
+                i = next(j for j in range(len(want)) if got[j] != want[j])
+                bad.append((sym, n, i + skip, f"{sum(1 for j in range(len(want)) if got[j] != want[j])} bytes differ from the input section, first at +{i + skip} "
+                                             f"(input 0x{want[i]:02x}, output 0x{got[i]:02x})"))
+        return bad
+    return ["--no-gc-sections"] + r.choice([[], ["-pie"]]) + line[:1] + [use] + objs + line[1:] + [arch], verify
+
+
 SHAPES = [("static-c", prog_static_c), ("asm-many", prog_asm_many), ("shared-versions", prog_shared_versions), ("strmerge", prog_strmerge),
           ("tls", prog_tls), ("ifunc", prog_ifunc), ("gc-heavy", prog_gc), ("exe-sysv-requests", prog_exe_sysv_requests),
-          ("shared-sysv", prog_shared_sysv)]
+          ("big-sections", prog_big_sections), ("shared-sysv", prog_shared_sysv)]
 BUILD_IDS = ["--build-id=fast", "--build-id=sha1", "--build-id=none", "--build-id=0x0123456789abcdef", "--build-id=md5"]
 
 
@@ -329,7 +380,7 @@ def link(d, base_args, c, out, ref_out, r):
 
 def run(ctx):
     r = ctx.rng
-    n_prog = 8 if ctx.quick else 60
+    n_prog = 9 if ctx.quick else 60
     n_cfg = 12 if ctx.quick else 60
     configs0 = fixed_configs(r)
     linked = 0
@@ -348,6 +399,9 @@ def run(ctx):
         if base is None:
             ctx.count("gen", f"unavailable:{shape}")
             continue
+        verify = None
+        if isinstance(base, tuple):
+            base, verify = base
         bid = BUILD_IDS[(pi // len(SHAPES) + pi) % len(BUILD_IDS)] if not ctx.quick else BUILD_IDS[pi % 3]
         base = [bid] + base
         ctx.count("shape", shape)
@@ -363,6 +417,20 @@ def run(ctx):
             continue
         ref_sha = sha(ref)
         ctx.note_case((pi, "ref"))
+
+        def check_content(path, c, env, args, tag):
+            for sym, n, at, why in (verify(path) if verify else []):
+                ctx.cov["impl_oracle_failures"] += 1
+                kd = os.path.join(ctx.replay_dir(), f"c06-{ctx.seed}-{pi}-{tag}-content")
+                shutil.copytree(d, kd, dirs_exist_ok=True)
+                ctx.violation(f"section-content-differs-from-input:{shape}:{'large' if n >= 1_000_000 else 'small'}",
+                              f"{shape}: bytes of {sym} ({n} byte input section) in the output linked with [{cfg_str(c)}] are not the input bytes: {why}",
+                              {"shape": shape, "base_args": base, "config": c, "env": env, "wild_args": args, "dir": kd, "symbol": sym, "section_size": n,
+                               "first_bad_offset_in_section": at, "how": "cd <dir>; run wild with <wild_args> <base_args> -o cur.out under <env>; compare the "
+                               "bytes at symbol <symbol> with tab<k>.bin"})
+            if verify:
+                ctx.count("content", "big-section-bytes-compared-with-input")
+        check_content(ref, configs[0], {}, [], "ref")
         for ci, c in enumerate(configs[1:], 1):
             out = os.path.join(d, "cur.out")
             rc, err, env, args = link(d, base, c, out, ref, pr)
@@ -379,6 +447,7 @@ def run(ctx):
                               {"shape": shape, "base_args": base, "config": c, "env": env, "args": args, "stderr": err[:1000]})
                 continue
             h = sha(out)
+            check_content(out, c, env, args, ci)
             if h != ref_sha:
                 ctx.cov["impl_oracle_failures"] += 1
                 off, sec, ndiff, la, lb = first_diff(ref, out)
